@@ -7,8 +7,8 @@ Open Scope Z_scope.
 
 Ltac sproj := cbn [gens active waitq killq proms pv timer nrid pcs gdone
                    set_killq set_timer set_waitq set_active set_pc set_done start_fin
-                   t_st t_pc t_val t_fin t_order t_norder t_due t_ran t_ghost t_woke t_risky t_cur ok08 ok09 okwf
-                   flag08 flag09 flagwf add_risk started killed enter w_id w_dl w_gen] in *.
+                   t_st t_pc t_val t_fin t_order t_norder t_due t_ran t_ghost t_woke t_risky t_cur t_abort ok08 ok09 okwf
+                   flag08 flag09 flagwf add_risk started killed enter abandon w_id w_dl w_gen] in *.
 
 (* deadline of the record with identity rid *)
 Definition dl (rid : Z) (q : list wrec) : Z :=
